@@ -27,7 +27,15 @@
    graph; the model fixes one order (leaves, then the connector), the property is order-independent
    and identity is not compared.  Failures and asynchronous programs are level-1 subjects; here every
    declared-mutating leaf mutates inside the call and once more after the call returned, and (flag
-   undecl) every non-declaring leaf then attempts an undeclared mutation. *)
+   undecl) every non-declaring leaf then attempts an undeclared mutation.
+
+   Recorded false alarm of the MODEL (never reported, fixed here): with the precision half of AdvertiseIff
+   counting only stages that declare MutatesData themselves, TLC found (3 pipelines) a pipeline whose only
+   exporter is a non-mutating connector feeding a read-only and a mutating pipeline: it advertises mutation
+   (aggregateCap) although the connector's router clones for the mutating pipeline, so nobody writes to the
+   original.  That is the conservative aggregate of connector.go, not a contradiction of the statement --
+   the connector stage "may mutate" what it is given by handing it to a pipeline that advertises mutation --
+   so `decl` of a connector stage is the aggregate (StageExec), on the real traces likewise. *)
 EXTENDS FanoutObs, TLC
 
 CONSTANTS MaxP,          \* pipelines
